@@ -24,7 +24,8 @@ class Explorer:
         t = time.time()
         self.solver.push()
         for p in self.pc:
-            self.solver.add(p)
+            if not has_fp(p):
+                self.solver.add(p)
         self.solver.add(c)
         r = self.solver.check()
         self.solver.pop()
@@ -42,8 +43,11 @@ class Explorer:
         if self.pos < len(self.decisions):
             d = self.decisions[self.pos][0]
         else:
-            ct = self.feasible(c)
-            cf = self.feasible(z3.Not(c))
+            if has_fp(c):
+                ct = cf = True      # policy: FP conditions are not feasibility-checked
+            else:
+                ct = self.feasible(c)
+                cf = self.feasible(z3.Not(c))
             if ct and cf:
                 self.decisions.append([True, True])
             elif ct:
@@ -76,6 +80,21 @@ class Explorer:
             if not self.decisions:
                 return
             self.decisions[-1] = [False, False]
+
+
+def has_fp(t, _seen=None):
+    seen = set() if _seen is None else _seen
+    stack = [t]
+    while stack:
+        x = stack.pop()
+        if x.get_id() in seen:
+            continue
+        seen.add(x.get_id())
+        k = x.sort().kind()
+        if k in (z3.Z3_FLOATING_POINT_SORT, z3.Z3_ROUNDING_MODE_SORT):
+            return True
+        stack.extend(x.children())
+    return False
 
 
 EX = None  # current explorer
@@ -332,6 +351,9 @@ class SymOpt:
 
     def __mul__(self, o):
         return self._force() * o
+
+    def __truediv__(self, o):
+        return self._force() / o
 
     def __lt__(self, o):
         return self._force() < o
